@@ -235,6 +235,12 @@ func propC07(c *Ctx) {
 	c.Rule("R7.7", "header/block segments are returned only with validate()'s verdict (numbers, linkage) – same rule as C03 R3.4", 6)
 	checkFetchersValidate(c, "R7.7")
 
+	c.Rule("R7.8", "the segment cache stores only successful fetches and serves only the segment fetched for exactly this range", 5)
+	checkCacheStoresOnlySuccess(c, "R7.8")
+	checkCacheKeyIdentity(c, "R7.8")
+	c.Rule("R7.9", "eth_getLogs spans the requested range and is batched with a header probe for its last block", 3)
+	checkLogsProbe(c, "R7.9")
+
 	// ---- R7.6 ----------------------------------------------------------
 	c.Rule("R7.6", "no error produced by a call inside jrpc2 is dropped (exceptions: calls that cannot fail, listed with reasons)", 20)
 	exceptions := map[string]string{
